@@ -53,6 +53,10 @@ func genC16(seed uint64, tier string) *world.Scenario {
 			}
 			b, _ := json.Marshal(m)
 			sc.DB = append(sc.DB, world.DBEntry{Bucket: "fanPwmMap", Key: f.ID, Value: string(b)})
+		case 3:
+			// the other way round: the RPM curve of an earlier run is stored, the PWM map is not (the earlier run
+			// had a pwmMap in its configuration, or could not store the map): only the sweep is left to do
+			preseedRpmCurve(sc, f.ID, linearRpmCurve(f.Plant.StartThr, 255, f.Plant.MaxRpm))
 		}
 		sc.Fans = append(sc.Fans, f)
 		total += 1.5 + 14 + float64(256/f.Driver.K+1) + float64(f.Plant.TauMs)/100
